@@ -4490,7 +4490,7 @@ def _match__inside_list_quantifier(
             count += 1
 
         else:
-            if static_tags := pat.static_tags:
+            if (static_tags := pat.static_tags) and not (tagss and tagss[-1] is static_tags):  # add only once, greedy gets here a second time if it reaches a finite maximum
                 tagss.append(static_tags)
 
                 if not pat_tag:  # if no pat_tag then inserting matches directly into tagss and need to insert them before the static_tags dict
